@@ -88,6 +88,8 @@ def run(idx, rep, tier):
     r5(idx, rep)
     spooler_table(idx, rep, "R1")
     empty_collection(idx, rep, "R1")
+    run_manifest_e2e(idx, rep, "R1")
+    member_manifest_e2e(idx, rep, "R1")
     r6(idx, rep)
     rep.stats["exhaustive"] = True
 
@@ -409,3 +411,96 @@ def r6(idx, rep):
     rep.check(len(ps) == 1 and ps[0].result == ("return", 5), "R6", f"{fe.file}::ResultsRegistrar.error_count sum", f"{ps[0].result}", K.where(fe, fe.node))
     fr, ok, d = K.returns(idx, "Result", "errors_count", 2, store={"self._errors": ["a", "b"]})
     rep.check(ok, "R6", f"{fr.file}::Result.errors_count", d, K.where(fr, fr.node))
+
+
+def run_manifest_e2e(idx, rep, rid):
+    """ResultsRegistrar.register_complete interpreted end to end — through the real ResultsMetadata/Metadata accessors, distribute_update and
+    metadata_update — onto a model file system: the run manifest on disk then says status complete and carries the folds' values"""
+    import datetime as _dt
+    import json as _json
+    from . import store_model as SMo
+    fi = idx.method("ResultsRegistrar", "register_complete")
+    rep.analysed(fi, idx.method("ResultsRegistrar", "metadata_update"), idx.method("Registrar", "distribute_update"))
+    bad = None
+    for ac, av, ec in ((True, True, 0), (False, True, 2), (True, False, 1)):
+        fsb = [SMo.MFS()]
+        fsb[0].dirs.add("RUN")
+        h = SMo.handlers(fsb)
+        now = _dt.datetime(2026, 1, 2, 3, 4, 5, tzinfo=_dt.timezone.utc)
+        h.update({"datetime.now": lambda i, c, r, a, k: now, "datetime.datetime.now": lambda i, c, r, a, k: now,
+                  "parser.parse": lambda i, c, r, a, k: _dt.datetime.fromisoformat(a[0]),
+                  "self.all_completed": lambda i, c, r, a, k, ac=ac: ac, "self.all_valid": lambda i, c, r, a, k, av=av: av, "self.error_count": lambda i, c, r, a, k, ec=ec: ec,
+                  "self.all_expected_files": lambda i, c, r, a, k: True})
+        mdcls = {f"{owner}.{m}" for cn in ("ResultsMetadata", "Metadata") for owner in ("ResultsMetadata", cn) for m in list(idx.cls(cn).methods) + list(idx.cls(cn).properties)}
+        it = Interp(idx, types={"self": "ResultsRegistrar", "md": "ResultsMetadata"}, inline_all={"ResultsRegistrar", "Registrar"}, inline=mdcls,
+                    handlers=h, unknown_calls="residual")
+        st = K.instance_store(idx, "ResultsMetadata", "md")
+        st.update({"md._time": now, "md._uuid": "U", "md.run_home": "RH", "md.named_results_name": "p", "md.named_paths_name": "p", "md.named_file_name": "f",
+                   "self.listeners": [Residual("self")], "self.manifest": {"run_home": "RH", "named_paths_name": "p", "named_file_name": "f"},
+                   "self.manifest_path": "RUN/manifest.json", "self.results": [Obj("r0")], "r0.by_line": False})
+        ps = it.run_all(fi, args={"mdata": Obj("md")}, store=st)
+        if len(ps) != 1:
+            raise AnalysisError(f"C09.{rid}: register_complete is not deterministic on the concrete model ({[p.choices for p in ps][:2]}); the model file system is shared between paths")
+        for p in ps:
+            if p.result[0] != "return":
+                bad = bad or f"register_complete ends in {p.result}"
+                continue
+            raw = fsb[0].get("RUN/manifest.json") if "RUN/manifest.json" in fsb[0].files else None
+            try:
+                m = _json.loads(raw) if isinstance(raw, str) else raw
+            except ValueError:
+                m = None
+            want = {"status": "complete", "all_completed": ac, "all_valid": av, "error_count": ec}
+            got = {k: (m or {}).get(k, "<absent>") for k in want} if isinstance(m, dict) else None
+            if got != want:
+                bad = bad or f"members fold to all_completed={ac}, all_valid={av}, error_count={ec}: the run manifest on disk has {got}, documented {want}"
+    rep.check(bad is None, rid, f"{fi.file}::ResultsRegistrar.register_complete writes the run manifest", bad or "3 fold outcomes", K.where(fi, fi.node))
+
+
+def member_manifest_e2e(idx, rep, rid):
+    """ResultRegistrar.register_complete interpreted end to end (real ResultMetadata accessors, distribute_update, metadata_update) onto a
+    model file system: the member manifest on disk carries this member's verdict, completion, fingerprints, identity and actual input"""
+    import datetime as _dt
+    import json as _json
+    from . import store_model as SMo
+    fi = idx.method("ResultRegistrar", "register_complete")
+    rep.analysed(fi, idx.method("ResultRegistrar", "metadata_update"))
+    bad = None
+    for valid, completed, preceding in ((True, True, False), (False, True, False), (True, False, True)):
+        fsb = [SMo.MFS()]
+        fsb[0].dirs.add("RUN/one")
+        h = SMo.handlers(fsb)
+        now = _dt.datetime(2026, 1, 2, 3, 4, 5, tzinfo=_dt.timezone.utc)
+        fps = {"data.csv": "FP1", "meta.json": "FP2"}
+        h.update({"datetime.now": lambda i, c, r, a, k: now, "datetime.datetime.now": lambda i, c, r, a, k: now, "uuid4": lambda i, c, r, a, k: "U",
+                  "parser.parse": lambda i, c, r, a, k: _dt.datetime.fromisoformat(a[0]),
+                  "self.result_serializer.get_run_dir_name_from_datetime": lambda i, c, r, a, k: "RUNNAME",
+                  "ResultMetadata": lambda i, c, r, a, k: Obj("md")})
+        mcls = [cn for cn in ("ResultMetadata", "Metadata") if idx.has_cls(cn)]
+        mdcls = {f"{cn}.{m}" for cn in mcls for m in list(idx.cls(cn).methods) + list(idx.cls(cn).properties)}
+        it = Interp(idx, types={"self": "ResultRegistrar", "md": "ResultMetadata"}, inline_all={"Registrar"}, inline=mdcls | {"ResultRegistrar.metadata_update", "ResultRegistrar.distribute_update"},
+                    handlers=h, unknown_calls="residual")
+        st = K.instance_store(idx, "ResultMetadata", "md")
+        st.update({"md._time": now, "md._uuid": "U", "self.listeners": [Residual("self")], "self.manifest": {}, "self.manifest_path": "RUN/one/manifest.json",
+                   "self.archive_name": "archive", "self.file_fingerprints": dict(fps), "self.completed": completed, "self.all_expected_files": True,
+                   "self.result": Obj("res"), "res.paths_name": "p", "res.run_time": "T", "res.by_line": False, "res.source_mode_preceding": preceding, "res.run_dir": "RUN",
+                   "res.instance_dir": "RUN/one", "res.identity_or_index": "one", "res.run_index": "0", "res.file_name": "f", "res.errors_count": 2,
+                   "res.csvpath": Obj("cp"), "cp.is_valid": valid, "cp.transfers": None, "res.actual_data_file": "ACTUAL", "res.origin_data_file": "ORIGIN"})
+        ps = it.run_all(fi, args={"mdata": None}, store=st)
+        if len(ps) != 1:
+            raise AnalysisError(f"C09.{rid}: ResultRegistrar.register_complete is not deterministic on the concrete model ({[p.choices for p in ps][:2]})")
+        p = ps[0]
+        if p.result[0] != "return":
+            bad = bad or f"register_complete ends in {p.result}"
+            continue
+        raw = fsb[0].get("RUN/one/manifest.json") if "RUN/one/manifest.json" in fsb[0].files else None
+        try:
+            m = _json.loads(raw) if isinstance(raw, str) else raw
+        except ValueError:
+            m = None
+        want = {"valid": valid, "completed": completed, "file_fingerprints": fps, "instance_identity": "one", "actual_data_file": "ACTUAL", "run_home": "RUN",
+                "source_mode_preceding": preceding}
+        got = {k: (m or {}).get(k, "<absent>") for k in want} if isinstance(m, dict) else None
+        if got != want:
+            bad = bad or f"member one (valid={valid}, completed={completed}): the member manifest on disk has {got}, documented {want}"
+    rep.check(bad is None, rid, f"{fi.file}::ResultRegistrar.register_complete writes the member manifest", bad or "3 members", K.where(fi, fi.node))
